@@ -294,7 +294,7 @@ pub fn run(ctx: &Ctx) {
             judge_pred(ns, p, &[&g[(r / n) as usize], &g[(r % n) as usize]])
         }))
     });
-    let stride = ctx.tier.pick(11, 1);
+    let stride = ctx.tier.pick(3, 1);
     ctx.indexed("pred-triples", 5 * n * n * n, stride, |i| {
         Some(with_ns(|ns, g| {
             let p = PREDS[(i / (n * n * n)) as usize];
@@ -309,7 +309,7 @@ pub fn run(ctx: &Ctx) {
             judge_minmax(ns, name, &[&g[(r / n) as usize], &g[(r % n) as usize]])
         }))
     });
-    let stride = ctx.tier.pick(13, 1);
+    let stride = ctx.tier.pick(4, 1);
     ctx.indexed("minmax-triples", 2 * n * n * n, stride, |i| {
         Some(with_ns(|ns, g| {
             let name = if i / (n * n * n) == 0 { "max" } else { "min" };
@@ -318,7 +318,7 @@ pub fn run(ctx: &Ctx) {
         }))
     });
     ctx.indexed("eqv-pairs", n * n, 1, |i| Some(with_ns(|ns, g| judge_eqv(ns, &g[(i / n) as usize], &g[(i % n) as usize]))));
-    let stride = ctx.tier.pick(7, 1);
+    let stride = ctx.tier.pick(2, 1);
     ctx.indexed("laws", n * n * n, stride, |i| {
         with_ns(|ns, g| {
             let (a, b, c) = (&g[(i / (n * n)) as usize], &g[((i / n) % n) as usize], &g[(i % n) as usize]);
@@ -329,7 +329,7 @@ pub fn run(ctx: &Ctx) {
             }
         })
     });
-    let cases = ctx.tier.pick(30_000, 1_500_000);
+    let cases = ctx.tier.pick(150_000, 1_500_000);
     ctx.random("random", cases, 24, |ch| random_case(ch));
 }
 
